@@ -70,7 +70,7 @@ type RunOut struct {
 	World   *World
 }
 
-func runProperty(repo, prop string, cfg BuildConfig, timeoutS int, scratch string, only string) (*RunOut, error) {
+func runProperty(repo, prop string, cfg BuildConfig, timeoutS int, scratch string, only string, thorough bool) (*RunOut, error) {
 	t0 := time.Now()
 	files, err := contractFilesFor(repo, prop)
 	if err != nil {
@@ -101,6 +101,9 @@ func runProperty(repo, prop string, cfg BuildConfig, timeoutS int, scratch strin
 		case "func", "closure", "lemma":
 			if c.Flags["assumed"] {
 				continue // used at call sites only; listed in the trusted base wherever it is used
+			}
+			if c.Flags["thorough"] && !thorough {
+				continue // heavy unit: thorough tier only
 			}
 			wg.Add(1)
 			go func() {
@@ -195,7 +198,7 @@ func cmdDump(args []string) {
 		scratch, _ = os.MkdirTemp("", "gpv")
 		defer os.RemoveAll(scratch)
 	}
-	out, err := runProperty(*repo, *prop, defaultConfig(), *timeout, scratch, *only)
+	out, err := runProperty(*repo, *prop, defaultConfig(), *timeout, scratch, *only, true)
 	if err != nil {
 		fmt.Println("ERROR:", err)
 		if out == nil {
